@@ -445,6 +445,82 @@ func ruleC19FileIndex(c *Ctx) {
 				return true
 			}
 		}
+		// a row of a snapshot slice: index and database are two fields of one element, and every row that is built
+		// pairs the key and the value of one map step
+		rowOf := func(v ssa.Value) (ssa.Value, *types.Var) {
+			switch x := v.(type) {
+			case *ssa.Field:
+				if st, ok := x.X.Type().Underlying().(*types.Struct); ok {
+					return x.X, st.Field(x.Field)
+				}
+			case *ssa.UnOp:
+				if fa, ok := x.X.(*ssa.FieldAddr); ok && x.Op == token.MUL {
+					return fa.X, fieldOf(fa)
+				}
+			}
+			return nil, nil
+		}
+		if row, fIdx := rowOf(idx); row != nil {
+			var fDb *types.Var
+			for _, a := range dbs {
+				seen := map[ssa.Value]bool{}
+				var rec func(v ssa.Value, d int)
+				rec = func(v ssa.Value, d int) {
+					if v == nil || seen[v] || d > 5 {
+						return
+					}
+					seen[v] = true
+					if r2, f2 := rowOf(v); r2 != nil && (r2 == row || sameValue(r2, row)) {
+						fDb = f2
+						return
+					}
+					switch x := v.(type) {
+					case *ssa.Call:
+						for _, a2 := range x.Call.Args {
+							rec(a2, d+1)
+						}
+					case *ssa.Extract:
+						rec(x.Tuple, d+1)
+					}
+				}
+				rec(a, 0)
+			}
+			if fDb != nil && fDb != fIdx {
+				// every construction of such a row in this function
+				builds, good := 0, true
+				for _, in := range instrsOf(fn) {
+					al, ok := in.(*ssa.Alloc)
+					if !ok {
+						continue
+					}
+					var vi, vd ssa.Value
+					for _, r := range referrers(al) {
+						if fa, ok := r.(*ssa.FieldAddr); ok {
+							for _, r2 := range referrers(fa) {
+								if st, ok := r2.(*ssa.Store); ok && st.Addr == ssa.Value(fa) {
+									if fieldOf(fa) == fIdx {
+										vi = st.Val
+									}
+									if fieldOf(fa) == fDb {
+										vd = st.Val
+									}
+								}
+							}
+						}
+					}
+					if vi == nil && vd == nil {
+						continue
+					}
+					builds++
+					if vi == nil || vd == nil || !paired(fn, vi, []ssa.Value{vd}, depth+1) {
+						good = false
+					}
+				}
+				if builds > 0 && good {
+					return true
+				}
+			}
+		}
 		// parameters of a callback
 		pi := -1
 		if p, ok := idx.(*ssa.Parameter); ok {
@@ -603,6 +679,21 @@ func ruleC19DirtyAfterReplace(c *Ctx) {
 					if _, f := loadedField(fa.X); f == fKs {
 						marker[fn] = true
 					}
+				}
+			}
+		}
+	}
+	// a wrapper that does nothing else than call a marker on every path is a marker (setDirty → markDirtyUnlocked)
+	for changed := true; changed; {
+		changed = false
+		for _, fn := range c.SrcFuncs() {
+			if marker[fn] || len(fn.Blocks) != 1 {
+				continue
+			}
+			for _, in := range fn.Blocks[0].Instrs {
+				if call, ok := in.(*ssa.Call); ok && marker[call.Call.StaticCallee()] {
+					marker[fn] = true
+					changed = true
 				}
 			}
 		}
@@ -995,7 +1086,7 @@ func ruleStringerIdentity(c *Ctx) {
 	scope := map[*ssa.Function]bool{}
 	var conv *ssa.Function
 	for _, sw := range c.respDataSwitches() {
-		if sw.fn.Signature.Recv() != nil && sw.fn.Signature.Results().Len() == 0 {
+		if isSerializerFn(sw.fn) {
 			scope[sw.fn] = true
 			for f := range c.M.Reach(sw.fn) {
 				if c.InPkg(f) {
@@ -2501,10 +2592,23 @@ func ruleC09QueueStartsEmpty(c *Ctx) {
 			if fa, ok := st.Addr.(*ssa.FieldAddr); ok && isFresh(fa.X) {
 				continue
 			}
+			if call, ok := st.Val.(*ssa.Call); ok {
+				if b, isB := call.Call.Value.(*ssa.Builtin); isB && b.Name() == "append" {
+					continue // the queue grows: not an installation
+				}
+			}
 			k++
 			n++
 			key := fmt.Sprintf("%s:install#%d", fnName(fn), k)
 			switch x := st.Val.(type) {
+			case *ssa.MakeSlice:
+				c.S.OK(id, key, c.Pos(st.Pos()), "a new slice")
+			case *ssa.Slice:
+				if _, isAl := x.X.(*ssa.Alloc); isAl {
+					c.S.OK(id, key, c.Pos(st.Pos()), "a new, empty slice literal")
+				} else {
+					c.S.Bad(id, key, c.Pos(st.Pos()), fmt.Sprintf("%s installs as MULTI queue a slice of something that exists already: whether it is empty cannot be told", fnName(fn)))
+				}
 			case *ssa.Alloc:
 				// a new slice variable: nothing may be put into it before it is installed except an empty literal
 				c.S.OK(id, key, c.Pos(st.Pos()), "a new slice")
@@ -2623,6 +2727,14 @@ func ruleC11DeleteOwnQueue(c *Ctx) {
 					for _, side := range []ssa.Value{x.X, x.Y} {
 						if base, f := loadedField(side); f != nil && base != nil {
 							subject = base
+						}
+					}
+					// `if emptied := ref.unlink(); emptied != nil`: the tested value is the queue itself
+					if subject == nil && (x.Op == token.NEQ || x.Op == token.EQL) {
+						if isNilConst(x.Y) {
+							subject = x.X
+						} else if isNilConst(x.X) {
+							subject = x.Y
 						}
 					}
 				}
@@ -3096,4 +3208,68 @@ func computesAggregate(c *Ctx, g *ssa.Function) bool {
 		}
 	}
 	return creates && !stores
+}
+
+// ---------------------------------------------------------------- R-list-cache-invalidated
+
+const textListCache = "R-list-cache-invalidated: a list header that remembers a node besides its two ends (a position memo: a further field of pointer-to-node type) forgets it whenever the chain changes: every function that writes a link of a node or an end of a list also writes that field (itself or through what it calls). A memo cleared by push, pop and remove but not by LINSERT makes a later LSET by index overwrite the node the index used to denote"
+
+func ruleListCacheInvalidated(c *Ctx) {
+	const id = "R-list-cache-invalidated"
+	c.S.Rule(id, textListCache, 0)
+	nt := c.NamedType("storeList")
+	fNext, fPrev := c.Field("listItem", "next"), c.Field("listItem", "prev")
+	fHead, fTail := c.Field("storeList", "head"), c.Field("storeList", "tail")
+	if nt == nil || fNext == nil || fPrev == nil || fHead == nil || fTail == nil {
+		c.S.Undecided(id, "anchors", "-", "list types not found")
+		return
+	}
+	var memo []*types.Var
+	if st, ok := nt.Underlying().(*types.Struct); ok {
+		for i := 0; i < st.NumFields(); i++ {
+			f := st.Field(i)
+			if f == fHead || f == fTail {
+				continue
+			}
+			if pt, ok := f.Type().Underlying().(*types.Pointer); ok && c.isPkgType(pt.Elem(), "listItem") {
+				memo = append(memo, f)
+			}
+		}
+	}
+	if len(memo) == 0 {
+		c.S.Trivial(id, "none", "-", "the list header points to its two ends only")
+		return
+	}
+	writes := func(fn *ssa.Function, fs ...*types.Var) bool {
+		for _, in := range instrsOf(fn) {
+			for _, f := range fs {
+				if st, ok := isStoreTo(in, f); ok {
+					if fa, ok := st.Addr.(*ssa.FieldAddr); ok && isFresh(fa.X) {
+						continue
+					}
+					return true
+				}
+			}
+		}
+		return false
+	}
+	for _, fn := range c.SrcFuncs() {
+		if !writes(fn, fNext, fPrev, fHead, fTail) {
+			continue
+		}
+		for _, m := range memo {
+			key := fmt.Sprintf("%s:%s", fnName(fn), m.Name())
+			ok := false
+			for g := range c.M.Reach(fn) {
+				if writes(g, m) {
+					ok = true
+				}
+			}
+			if ok {
+				c.S.OK(id, key, c.Pos(fn.Pos()), "the remembered node is written where the chain changes")
+			} else {
+				c.S.Bad(id, key, c.Pos(fn.Pos()), fmt.Sprintf("%s changes the chain of a list and leaves the remembered node %s as it is: a later access through the memo reaches a node at another position (or one that was removed)", fnName(fn), m.Name()))
+			}
+		}
+	}
 }
